@@ -212,7 +212,7 @@ def run_query(q, logdir):
     os.makedirs(logdir, exist_ok=True)
     t0 = time.time()
     try:
-        uws = resolve_unwindset(q)
+        uws = getattr(q, 'uws_override', None) or resolve_unwindset(q)
     except Exception as e:
         return dict(name=q.name, status='error', error=repr(e), wall_s=0)
     raised = []
